@@ -79,7 +79,7 @@ def run(tw, tier, seed, only=None):
             samples.append({"G": gen.graph_desc(G), "H": gen.graph_desc(H)})
         if len(fails) > 20:
             break
-    return {"cases": cases, "nontrivial": nontriv, "failures": fails[:20], "samples": samples, "exhaustive": False,
+    return {"cases": cases, "nontrivial": nontriv, "failures": fails, "samples": samples, "exhaustive": False,
             "evaluations": tw.evaluations,
             "bound": "all reactant/product pairs on <= 2 shared atoms (2 elements, orders 1/2; %d pairs) + %d random pairs on <= %d atoms, "
                      "each under store x balance_its x ignore_aromaticity" % (exhaustive_n, cases - exhaustive_n, 6 if tier == "quick" else 8),
